@@ -33,9 +33,22 @@ def run(prog):
     return out
 
 
-def compress_rule(prog, fn):
+def compress_rule(prog, fn, outer_param=None, key_fn=None):
     te, cfg = fn.terms, fn.cfg
     out = []
+    key_fn = key_fn or fn
+    if outer_param is None and not any(cs.callee.name in ("swap_remove", "remove") for cs in te.calls):
+        # the inner loop may live in a private helper `absorb(node, i)` called once per position of the outer loop
+        for cs in te.calls:
+            if not (cs.callee.local or getattr(cs.callee, "res_local", False)) or len(cs.args) < 3:
+                continue
+            hs = [h for h in prog.resolve(cs.callee) if h.kind != "Closure" and
+                  any(c2.callee.name in ("swap_remove", "remove") for c2 in h.terms.calls)]
+            if len(hs) != 1:
+                continue
+            ks = [i + 1 for i, a in enumerate(cs.args) if i >= 2 and any(x[0] == "mu" for x in [strip(a)] + list(mir.subterms(a)))]
+            if len(ks) == 1:
+                return compress_rule(prog, hs[0], outer_param=ks[0], key_fn=fn)
     jl = None
     for cs in te.calls:   # the inner cursor is the loop-carried local handed to the removal (whatever it is called)
         if cs.callee.name in ("swap_remove", "remove") and len(cs.args) == 2 and strip(cs.args[0]) == ("param", 2):
@@ -54,6 +67,8 @@ def compress_rule(prog, fn):
     def is_i(t):
         """the position of the outer loop: the item of `for i in 0..len`, or the cursor of an outer `while i < len`"""
         t = strip(t)
+        if outer_param is not None and t == ("param", outer_param):
+            return True
         if t in outer_mus:
             return True
         return t[0] == "field" and t[2] == "0" and "next(" in show(t) and not any(x == jmu for x in mir.subterms(t))
@@ -92,7 +107,7 @@ def compress_rule(prog, fn):
              and strip(c)[1] in ("Lt", "Ge", "Le", "Gt") and any(x == jmu for x in mir.subterms(strip(c)))]
     if not bound or not any(mir.is_call(x, "len") for x in mir.subterms(strip(bound[0]))):
         errs.append("the inner loop is not bounded by the current length of the list")
-    out.append(inst("CM", "%s:CM1:test" % fn.npath, verdict_of(errs), fn, eqs[0].line if eqs else None,
+    out.append(inst("CM", "%s:CM1:test" % key_fn.npath, verdict_of(errs), fn, eqs[0].line if eqs else None,
                     errtext(errs) if errs else "merge test sub(node[i]) == sub(node[j]), j from i+1 while j < len"))
     # CM2
     errs = []
@@ -125,13 +140,18 @@ def compress_rule(prog, fn):
         if not any(show(strip(c)) == eq_txt and val != "0" for c, val, _, _ in te.facts_at(rms[0].bb)):
             errs.append("the removal is not conditional on the merge test")
         # ... and on nothing else: every pair with equal subs must be merged
-        for c, val, _, _ in te.facts_at(rms[0].bb):
+        fa = te.facts_at(rms[0].bb)
+        accepted = lambda sc, c: sc == eq_txt or sc.startswith("discr(next(") or \
+            (any(x == jmu or x in outer_mus for x in mir.subterms(strip(c))) and "len(" in sc)
+        # facts derived from an accepted test (its negation unfolded, the body of the predicate it calls) say nothing new
+        ok_ds = {d_ for c, val, _, d_ in fa if accepted(show(strip(c)), c)}
+        for c, val, _, d_ in fa:
             sc = show(strip(c))
-            if sc == eq_txt or sc.startswith("discr(next(") or (any(x == jmu or x in outer_mus for x in mir.subterms(strip(c))) and "len(" in sc):
+            if accepted(sc, c) or d_ in ok_ds:
                 continue
             errs.append("elements with equal subs are merged only if additionally `%s` is %s: the remaining equal subs stay "
                         "in the node, which is then not compressed" % (sc[:70], "false" if val == "0" else "true"))
-    out.append(inst("CM", "%s:CM2:merge" % fn.npath, verdict_of(errs), fn, news[0].line if news else None,
+    out.append(inst("CM", "%s:CM2:merge" % key_fn.npath, verdict_of(errs), fn, news[0].line if news else None,
                     errtext(errs) if errs else "node[i] := (prime_i ∨ prime_j, sub_i); node[j] removed, under the merge test"))
     # CM3: per inner iteration remove-and-stay or keep-and-advance
     body = cfg.loop_headers[hj]
@@ -164,7 +184,7 @@ def compress_rule(prog, fn):
             errs.append("an iteration keeps node[j] but advances j by %d" % inc)
     if not results:
         errs.append("?no path through the inner loop found")
-    out.append(inst("CM", "%s:CM3:cursor" % fn.npath, verdict_of(errs), fn, None,
+    out.append(inst("CM", "%s:CM3:cursor" % key_fn.npath, verdict_of(errs), fn, None,
                     errtext(errs) if errs else "per iteration: remove-and-stay or keep-and-advance %s" % sorted(results)))
     return out
 
